@@ -14,6 +14,12 @@
 (*            "refor" v // {or: ["@t", "boolean"]}  with  @t = tv // {rules}    *)
 (*            "reftor" v // {type: "@t"}                                        *)
 (*                     with  @t = tv // {or: [{type: T, rules}, {type: "boolean"}]} *)
+(*            "ref2"  {"k": @t}  with  @t = v // {type: "@u"}                   *)
+(*                    and  @u = tv // {rules}   (a chain of two references:    *)
+(*                    what @t demands depends on how the project defines @u;   *)
+(*                    the harness also uses the @t object in a project with a  *)
+(*                    rule-free @u first: the verdict of the second project    *)
+(*                    is the same as on fresh objects)                         *)
 (*                                                                              *)
 (* Composition (ComposeExpect): a project whose root is an object with one      *)
 (* property per part, every part with a user type of its own, is accepted iff   *)
@@ -33,7 +39,7 @@ Init == stage = "skel" /\ skel = "" /\ kind = "" /\ v = 0 /\ tv = 0 /\ rules = {
 ChooseSkeleton(s) == /\ stage = "skel" /\ skel' = s /\ stage' = "value"
                      /\ UNCHANGED <<kind, v, tv, rules>>
 
-NeedsTypeExample == skel \in {"ref", "refor", "reftor"}
+NeedsTypeExample == skel \in {"ref", "refor", "reftor", "ref2"}
 ChooseValue(k, i, j) ==
   /\ stage = "value" /\ k \in Kinds
   /\ kind' = k /\ v' = i /\ tv' = j
